@@ -245,6 +245,8 @@ def oracle_pwc(c, got):
 
 
 def correspondence(rep, rng, tier):
+    from .. import pipeline as _PL
+    _PL.section_e2e(rep, rng, tier, n=(120 if tier == 'quick' else 4000))
     v2 = v2_case_set(rng, tier)
     run_section(rep, 'trunc-v2', v2, line_trunc, impl_trunc, oracle_fn=oracle_trunc,
                 kind_fn=lambda c, got: 'batch',
